@@ -74,3 +74,11 @@ Lemma gen_exit_codes :
   (Gen.Policy.exit_success, Gen.Policy.exit_interrupt, Gen.Policy.exit_config, Gen.Policy.exit_fatal) = (0, 1, 2, 3)%Z /\
   Gen.Policy.max_ksr_size = 1048576%Z /\ Gen.Policy.max_skr_size = 1048576%Z.
 Proof. repeat split; reflexivity. Qed.
+
+From KV Require Gen.Pipeline.
+Lemma gen_exit_map :
+  Gen.Pipeline.main_except_map = [("KeyboardInterrupt", "EXIT_CODES['interrupt']"); ("ConfigurationError", "EXIT_CODES['config']")] /\
+  Gen.Pipeline.main_try_exits = ["EXIT_CODES['success']"; "EXIT_CODES['fatal']"] /\
+  In ("ValidationError", "raise ConfigurationError(str(exc)) from exc") Gen.Pipeline.ksrsigner_except_map /\
+  nth_error Gen.Pipeline.ksrsigner_stages 0 = Some "get_config".
+Proof. repeat split; try reflexivity. cbn. tauto. Qed.
